@@ -1,11 +1,13 @@
 package props
 
 import (
+	"context"
 	"fmt"
 	"sort"
 	"strings"
 	"sync"
 
+	"github.com/ProtonMail/gluon"
 	"github.com/ProtonMail/gluon/imap"
 	"github.com/ProtonMail/gluon/limits"
 
@@ -57,25 +59,26 @@ func (C17) Execute(sc *core.Scenario, keepLog bool) *core.Result {
 		// and the parked writers are let through one at a time in an order the scenario
 		// chooses.  That decides the interleaving of concurrent commands at the seam where
 		// it matters (what a command read before it writes).
+		type parked struct {
+			sid int64
+			ch  chan struct{}
+		}
 		var (
 			gateMu   sync.Mutex
 			gateShut bool
-			gateWait []chan struct{}
+			gateWait []parked
 		)
-		e.W.DB.Hook = func(point string) error {
-			if point != "db.write.enter" {
-				return nil
-			}
+		e.W.DB.EnterCtx = func(ctx context.Context) {
 			gateMu.Lock()
 			if !gateShut {
 				gateMu.Unlock()
-				return nil
+				return
 			}
-			ch := make(chan struct{})
-			gateWait = append(gateWait, ch)
+			sid, _ := gluon.VerifStateIDFromContext(ctx)
+			p := parked{sid, make(chan struct{})}
+			gateWait = append(gateWait, p)
 			gateMu.Unlock()
-			<-ch
-			return nil
+			<-p.ch
 		}
 		m := NewMail(e, 1, 2, true) // INBOX + box1 (+ recovery = 3 mailboxes)
 		if e.Failed() {
@@ -251,10 +254,15 @@ func (C17) Execute(sc *core.Scenario, keepLog bool) *core.Result {
 				waiting := gateWait
 				gateWait = nil
 				gateMu.Unlock()
+				// the order of arrival at the gate is the Go scheduler's: order the writers by
+				// the session they belong to, so that the scenario's choice means the same
+				// interleaving in every execution
+				sort.SliceStable(waiting, func(i, j int) bool { return waiting[i].sid < waiting[j].sid })
 				e.St.Probes["writers_parked_at_gate"] += len(waiting)
+				e.St.Faults["write_order_chosen_at_gate"] += len(waiting)
 				for n := abs(a.Arg(3)); len(waiting) > 0; n /= 7 {
 					j := n % len(waiting)
-					close(waiting[j])
+					close(waiting[j].ch)
 					waiting = append(waiting[:j], waiting[j+1:]...)
 					e.W.Quiesce()
 				}
